@@ -747,7 +747,45 @@ def r14(ctx):
         raise AnalysisBroken('C16.R14: only %d places found where a level is kept or asked for' % n)
 
 
+def r15(ctx):
+    ctx.rule('C16.R15', 'a known user has exactly the levels of its own ACL entry, also when that list is empty: UserList::getLevels '
+             'returns the entry found for the user; any further lookup (the default entry "") or other value is reached only '
+             'when the user is not in the map (it == end()) - the fallback to the default levels for unknown users is the '
+             'business of the callers, and an empty list must not be "upgraded" to the default levels', minimum=1)
+    fb = ctx.fb
+    fn = fb.fn('ebusd::UserList::getLevels')
+    ctx.touch(fn)
+    finds = [c for c in fn.calls('find') if 'm_userLevels' in fn.key(fn.nodes[c].get('obj', -1))]
+    if not finds:
+        raise AnalysisBroken('C16.R15: the lookup in m_userLevels was not found in getLevels')
+    first = min(finds, key=lambda c: fn.line_of(c) * 1000 + c)
+    itn = None
+    for nid, d, rhs, op, lhs in fn.assignments():
+        if rhs is not None and d and first in set(fn.walk(rhs)):
+            itn = d.split(':')[-1]
+    n = 0
+    for c in finds:
+        if c == first:
+            continue
+        n += 1
+        ok = itn is not None and fn.block_of(c) is not None and fn.needs_one_of(c, [('(%s == this.m_userLevels.end())' % itn, True)]) and \
+            not any('.empty()' in a[0] for a in fn.atoms(c))
+        ctx.ob('C16.R15', fn, c, bool(ok), 'second lookup in getLevels', 'only for a user that is not in the map: %s' % bool(ok))
+    # conditions that look at the content of the found entry decide nothing here
+    for b in fn.blocks.values():
+        if b.cond is not None and '.second.empty()' in fn.key(b.cond):
+            n += 1
+            ctx.ob('C16.R15', fn, b.cond, False, 'test of the found level list', 'the content of the entry decides which entry is returned: %s' % fn.key(b.cond)[:80])
+    for x, v in fn.nodes.items():
+        if v['k'] == 'ConditionalOperator' and '.second.empty()' in fn.key(v['cond']):
+            n += 1
+            ctx.ob('C16.R15', fn, x, False, 'test of the found level list', 'the content of the entry decides which entry is returned')
+    if n == 0:
+        ctx.ob('C16.R15', fn, first, True, 'lookup in getLevels', 'one lookup, its entry is returned')
+
+
 def run(ctx):
+    r15(ctx)
     r14(ctx)
     r13(ctx)
     r12(ctx)
